@@ -19,7 +19,7 @@ RULE = ("op sets: 2-3 threads x 1-3 operations from {safe/unsafe register, remov
         "non-trivial = the schedule contains at least one context switch inside an operation")
 ASSUMPTIONS = ["granularity is the source line (CPython may also switch between bytecodes of a line)",
                "for SqlStorage each storage call is atomic for the scheduler (a thread is never parked inside an open sqlite transaction)"]
-REQUIRED_REACH = ["socket_histories", "schedules_explored", "histories_linearizable", "concurrent_safe_registers", "concurrent_removes", "sql_schedules"]
+REQUIRED_REACH = ["socket_histories", "schedules_explored", "histories_linearizable", "concurrent_safe_registers", "concurrent_removes", "sql_schedules", "sql_stress_entries_read"]
 SHARD_TIMEOUT = {"quick": 240, "thorough": 3000}
 NSNAME = "Pyro.NameServer"
 URIS = ["PYRO:o1@h:1", "PYRO:o2@h:2", "PYRO:o3@h:3"]
@@ -74,6 +74,11 @@ class Model:
             return state, tuple(sorted((n, u) for n, (u, m) in d.items() if n.startswith(args[0])))
         if op == "listm":
             return state, tuple(sorted((n, u, m) for n, (u, m) in d.items()))
+        if op == "listpm":
+            return state, tuple(sorted((n, u, m) for n, (u, m) in d.items() if n.startswith(args[0])))
+        if op == "listrm":
+            import re
+            return state, tuple(sorted((n, u, m) for n, (u, m) in d.items() if re.match(args[0], n)))
         if op == "count":
             return state, len(d)
         raise ValueError(op)
@@ -104,6 +109,10 @@ def do_op(ns, op, args):
             return tuple(sorted(ns.list(prefix=args[0]).items()))
         if op == "listm":
             return tuple(sorted((n, u, frozenset(m or ())) for n, (u, m) in ns.list(return_metadata=True).items()))
+        if op == "listpm":
+            return tuple(sorted((n, u, frozenset(m or ())) for n, (u, m) in ns.list(prefix=args[0], return_metadata=True).items()))
+        if op == "listrm":
+            return tuple(sorted((n, u, frozenset(m or ())) for n, (u, m) in ns.list(regex=args[0], return_metadata=True).items()))
         if op == "count":
             return ns.count()
     except Exception as x:
@@ -135,7 +144,8 @@ def gen_opset(r, nthreads):
             elif k < 0.82:
                 ops.append((r.choice(["lookup", "lookupm"]), (name,)))
             elif k < 0.94:
-                ops.append((r.choice(["list", "listp", "listm"]), ("a.",)))
+                k2 = r.choice(["list", "listp", "listm", "listpm", "listrm"])
+                ops.append((k2, (r"a\..",) if k2 == "listrm" else ("a.",)))
             else:
                 ops.append(("count", ()))
         threads.append(ops)
@@ -164,7 +174,111 @@ FOCUSED = [
     {"initial": (("a.x", URIS[0], frozenset(["m0"])), ("a.y", URIS[0], frozenset(["m0"]))), "threads": [[("listm", ("a.",))], [("reg", ("a.x", URIS[1], False, ("m1",))), ("reg", ("a.y", URIS[1], False, ("m1",)))]]},
     {"initial": (("a.x", URIS[0], frozenset(["m0"])), ("a.y", URIS[0], frozenset(["m0"]))), "threads": [[("count", ()), ("count", ())], [("remove_prefix", ("a.",))], [("reg", ("a.x", URIS[2], True, ()))]]},
     {"initial": (("a.x", URIS[0], frozenset(["m0"])),), "threads": [[("lookupm", ("a.x",))], [("setmeta", ("a.x", ("s1",)))], [("reg", ("a.x", URIS[1], False, ("m1",)))]]},
+    {"initial": (("a.x", URIS[0], frozenset(["m0"])), ("a.y", URIS[0], frozenset(["m0"]))), "threads": [[("listpm", ("a.",))], [("reg", ("a.x", URIS[1], False, ("m1",))), ("reg", ("a.y", URIS[1], False, ("m1",)))]]},
+    {"initial": (("a.x", URIS[0], frozenset(["m0"])), ("a.y", URIS[0], frozenset(["m0"]))), "threads": [[("listrm", (r"a\..",))], [("setmeta", ("a.x", ("s1",))), ("remove", ("a.y",))]]},
 ]
+
+
+def sql_stress(P, rec, r, nhist, workdir):
+    """(c) free-running threads on a NameServer over SqlStorage (no sockets), sleeps injected at the lines of nameserver.py (storage code included: the
+    controlled scheduler treats a storage call as atomic). Every written version of an entry is unique (uri number == metadata number), so every entry a
+    reader is handed - by lookup, and by every kind of listing - identifies the write it came from: an entry whose uri and metadata belong to
+    different writes, or to no write, never existed."""
+    import threading
+    from vlib import yieldinj
+    N = P.nameserver
+    names = ["a.x", "a.y", "a.z"]
+    for h in range(nhist):
+        if rec.should_stop(6):
+            break
+        dbfile = os.path.join(workdir, "stress-%d.sqlite" % h)
+        ns = N.NameServer(N.SqlStorage(dbfile))
+        vcount = [0]
+        vlock = threading.Lock()
+
+        def version():
+            with vlock:
+                vcount[0] += 1
+                return vcount[0]
+
+        def write(name):
+            k = version()
+            ns.register(name, "PYRO:o%d@h:1" % k, safe=False, metadata={"v%d" % k})
+        for n in names:
+            write(n)
+        bad, errs, reads = [], [], [0]
+        stop = threading.Event()
+        seeds = [r.getrandbits(30) for _ in range(6)]
+
+        def writer(sd):
+            rr = gen.rng(sd, "w")
+            try:
+                for _ in range(40):
+                    n = rr.choice(names)
+                    if rr.random() < 0.2:
+                        ns.remove(n)
+                    write(n)
+            except Exception as x:
+                errs.append(repr(x))
+
+        def check_entry(how, n, u, m):
+            reads[0] += 1
+            m = set(m or ())
+            if m != {"v" + str(u).split("@")[0][6:]}:
+                bad.append("%s returned %s -> (%s, %r): no write ever stored that uri with that metadata" % (how, n, u, sorted(m)))
+
+        def reader(sd):
+            rr = gen.rng(sd, "r")
+            try:
+                while not stop.is_set() and not bad:
+                    k = rr.randrange(4)
+                    if k == 0:
+                        for n, (u, m) in ns.list(prefix="a.", return_metadata=True).items():
+                            check_entry("list(prefix, return_metadata)", n, u, m)
+                    elif k == 1:
+                        for n, (u, m) in ns.list(regex=r"a\..", return_metadata=True).items():
+                            check_entry("list(regex, return_metadata)", n, u, m)
+                    elif k == 2:
+                        for n, (u, m) in ns.list(return_metadata=True).items():
+                            if n != NSNAME:
+                                check_entry("list(return_metadata)", n, u, m)
+                    else:
+                        n = rr.choice(names)
+                        try:
+                            u, m = ns.lookup(n, return_metadata=True)
+                        except P.errors.NamingError:
+                            continue
+                        check_entry("lookup(return_metadata)", n, u, m)
+            except Exception as x:
+                errs.append(repr(x))
+        yieldinj.enable(("Pyro5/nameserver.py",), 0.25, r.getrandbits(30), max_sleep=0.002)
+        try:
+            ws = [threading.Thread(target=writer, args=(seeds[i],), daemon=True) for i in range(2)]
+            rs = [threading.Thread(target=reader, args=(seeds[2 + i],), daemon=True) for i in range(3)]
+            for t in ws + rs:
+                t.start()
+            for t in ws:
+                t.join(60)
+            stop.set()
+            for t in rs:
+                t.join(30)
+        finally:
+            n_inj, _ = yieldinj.disable()
+        rec.count("injected_yields", n_inj)
+        hung = any(t.is_alive() for t in ws + rs)
+        ns.storage.close()
+        rec.case(("sqlstress", rec.seed, h, reads[0]), nontrivial=True, sample={"sql_stress_entries_read": reads[0], "versions_written": vcount[0]} if h % 5 == 0 else None)
+        if hung:
+            rec.inconc("sql stress history did not complete")
+            continue
+        if errs:
+            rec.violation("internal-error:sql-stress", "operation failed under concurrency on SqlStorage: %s" % errs[0], None)
+            continue
+        if bad:
+            rec.violation("entry-never-existed:" + bad[0].split(" returned")[0].split("(")[0], bad[0], None)
+            continue
+        rec.count("sql_stress_entries_read", reads[0])
+        rec.count("sql_stress_histories")
 
 
 def controlled_run(P, opset, backend, choices, strategy, workdir):
@@ -243,7 +357,7 @@ def judge(opset, backend, res, history, final, rec, pay):
 
 def mech_of(op):
     return {"reg": "register", "remove": "remove", "remove_prefix": "remove-prefix", "remove_regex": "remove-regex", "setmeta": "set_metadata",
-            "lookup": "lookup", "lookupm": "lookup", "list": "list", "listp": "list", "listm": "list", "count": "count"}[op]
+            "lookup": "lookup", "lookupm": "lookup", "list": "list", "listp": "list", "listm": "list", "listpm": "list", "listrm": "list", "count": "count"}[op]
 
 
 def explore(P, opset, backend, bound, nrandom, npct, max_runs, rec, r, workdir):
@@ -330,7 +444,7 @@ def socket_stress(P, rec, r, nhist, inject):
                             with hlock:
                                 history.append(hh)
                             res = do_op(ns, op, args)
-                            if op in ("list", "listp", "listm"):
+                            if op in ("list", "listp", "listm", "listpm", "listrm"):
                                 # only the shared names (the daemon's own entry is part of every listing)
                                 res = tuple(x for x in res if x[0] != NSNAME) if isinstance(res, tuple) and (not res or isinstance(res[0], tuple)) else res
                             if op == "count" and isinstance(res, int):
@@ -372,6 +486,8 @@ def plan(tier, seed):
     n = 12 if tier == "quick" else 32
     for i in range(2 if tier == "quick" else 8):
         shards.append({"i": 200 + i, "backend": "daemon", "histories": 25 if tier == "quick" else 300, "inject": i % 2 == 0})
+    for i in range(1 if tier == "quick" else 4):
+        shards.append({"i": 300 + i, "backend": "sqlstress", "histories": 6 if tier == "quick" else 80})
     for i in range(n):
         shards.append({"i": i, "nshards": n, "backend": "memory", "opsets": 5 if tier == "quick" else 40, "bound": 1 if tier == "quick" else 2,
                        "max_runs": 120 if tier == "quick" else 3000, "nrandom": 15 if tier == "quick" else 300, "npct": 10 if tier == "quick" else 150})
@@ -391,6 +507,9 @@ def run_shard(shard, rec):
         return
     workdir = tempfile.mkdtemp(prefix="c15-", dir=os.path.join(core.VERIF, ".work"))
     try:
+        if shard["backend"] == "sqlstress":
+            sql_stress(P, rec, r, shard["histories"], workdir)
+            return
         if shard["backend"] == "memory":
             rec.count("sql_schedules")
         # every focused op set is explored in every run (dealt round-robin over the shards of a back-end), then random ones
